@@ -1,6 +1,6 @@
 """C06 - joins return exactly the defined pairs and unmatched rows."""
 import itertools, random, json
-import vlib, rel
+import vlib, rel, scale
 
 
 def configs(tier):
@@ -74,6 +74,7 @@ def run(tier):
                        "over {NULL,0..%d}) x execution configs; non-trivial = both tables non-empty and the "
                        "result non-empty; distinct by (query, database)" % (mr, mv))
     rep.cov["exhaustive"] = exhaustive
+    scale.run(rep, tier, ["joinagg", "leftagg", "semi", "anti"], "C06")
     rep.assumptions += ["sqlgen rendering (term -> SQL) is trusted", "TLC evaluates Algebra.tla correctly"]
     return rep.finish()
 
